@@ -30,7 +30,11 @@ impl Recorder {
         let res = self.script.get("result").and_then(|v| v.as_str()).unwrap_or("ok");
         if let Some(code) = res.strip_prefix("err:") {
             let c = s3s::S3ErrorCode::from_bytes(code.as_bytes()).unwrap_or(s3s::S3ErrorCode::InternalError);
-            let mut e = s3s::S3Error::with_message(c, self.script.get("message").and_then(|v| v.as_str()).unwrap_or("scripted error").to_string());
+            let mut e = if self.script.get("no_message").is_some() {
+                s3s::S3Error::new(c)
+            } else {
+                s3s::S3Error::with_message(c, self.script.get("message").and_then(|v| v.as_str()).unwrap_or("scripted error").to_string())
+            };
             if let Some(st) = self.script.get("err_status").and_then(|v| v.as_u64()) {
                 e.set_status_code(http::StatusCode::from_u16(st as u16).unwrap());
             }
